@@ -119,7 +119,7 @@ func checkC02(r *core.Run) {
 	}
 	c02BIP143(r, p)
 	c02BIP341(r, p)
-	c02LeafHash(r, p)
+	c02LeafHash(r, p, "R-C02-bip341")
 	c02Tags(r, p)
 	c02Legacy(r, p)
 }
@@ -241,8 +241,7 @@ func c02InitFuncs(p *core.Program) []*ssa.Function {
 // as TapLeaf(leaf version, compact size of the script, script), stored through the execution-data pointer,
 // and the stored bytes are not written again: no later Sum/append/copy/store targets memory that may alias
 // the stored slice (the Merkle-root computation continues from a copy of the slice header).
-func c02LeafHash(r *core.Run, p *core.Program) {
-	const rule = "R-C02-bip341"
+func c02LeafHash(r *core.Run, p *core.Program, rule string) {
 	fn := p.Func("lib/script.VerifyTaprootCommitment")
 	if fn == nil || len(fn.Params) < 4 {
 		r.Fail(rule, "leaf-hash", "-", "VerifyTaprootCommitment not found")
